@@ -42,6 +42,10 @@ def decode_value(val, U):
             return [decode_value(v, U) for v in val["list"]]
         if "tuple" in val:
             return tuple(decode_value(v, U) for v in val["tuple"])
+        if "set" in val:
+            return set(decode_value(v, U) for v in val["set"])
+        if "iter" in val:
+            return iter([decode_value(v, U) for v in val["iter"]])
         if "alias" in val:
             if not U.aliases:
                 raise Skip("no alias")
